@@ -130,6 +130,56 @@ def run_c01(ctx):
         ctx.violations += judge_sources(ctx, cfg, sample, ops=('pv',), srcs=['s', 'b', 'r1', 'rx5'], what_prefix='c01-')
         # depth clause: 127 levels accepted, 128 rejected, for every bracket mix
         ctx.violations += judge_depth(ctx, cfg)
+    ctx.violations += judge_private_tokens(ctx, acceptance_only=True)
+
+# ---- the private token keys (finding F23): with arbitrary_precision / raw_value an object whose FIRST key is the crate's private token is not read as an object
+NUM_TOKEN = b'$serde_json::private::Number'
+RAW_TOKEN = b'$serde_json::private::RawValue'
+
+def private_token_docs():
+    out = []
+    for tok in (NUM_TOKEN, RAW_TOKEN):
+        k = b'"' + tok + b'"'
+        for val in (b'"12"', b'"-0.50e1"', b'"abc"', b'12', b'null', b'"[1, 2]"', b'"nonsense"', b'[1]', b'{}', b'""'):
+            out.append(b'{' + k + b':' + val + b'}')
+            out.append(b'[{' + k + b':' + val + b'}]')
+            out.append(b'{"a":{' + k + b':' + val + b'}}')
+            out.append(b'{' + k + b':' + val + b',"x":1}')          # token first, more keys
+            out.append(b'{"x":1,' + k + b':' + val + b'}')          # token not first: an ordinary key everywhere
+            out.append(b' {\n' + k + b' : ' + val + b' } ')
+        out.append(b'{"' + tok + b'x":"12"}')                       # near misses: ordinary keys
+        out.append(b'{"' + tok[1:] + b'":"12"}')
+        out.append(b'"' + tok + b'"')
+        out.append(b'["' + tok + b'","12"]')
+    return out
+
+def judge_private_tokens(ctx, acceptance_only):
+    """C01 (acceptance_only) / C02: documents whose objects carry the private token keys, in every configuration of the check and in the ap / raw builds.
+    Where the feature is off, and wherever the token is not an object's first key, they are ordinary objects (equal to the model); where it is on, the
+    reinterpretation is the KNOWN finding F23 (the model has no such branch: Value parsing is modelled without the in-band tokens)."""
+    v = []
+    docs = private_token_docs()
+    for cfg in list(ctx.cfgs) + list(getattr(ctx, 'side_cfgs', [])):
+        feats = engine.CONFIGS[cfg][0]
+        L = ctx.letters(cfg)
+        for src in ('b', 'r1', 's'):
+            lines = ['pv %s %s %s' % (L, src, hx(d)) for d in docs]
+            io, mo = ctx.both(cfg, lines)
+            for d, a, m in zip(docs, io, mo):
+                if m == 'NOMODEL' or a == m:
+                    ctx.distinct_nontrivial += 1
+                    continue
+                first_key = lambda tok: (b'{"' + tok + b'"') in d.replace(b' ', b'').replace(b'\n', b'')
+                active = ('arbitrary_precision' in feats and first_key(NUM_TOKEN)) or ('raw_value' in feats and first_key(RAW_TOKEN))
+                if acceptance_only and is_ok(a) == is_ok(m):
+                    continue
+                if active:
+                    what = 'private-token-key-rejected' if acceptance_only else 'private-token-key-reinterpreted'
+                else:
+                    what = 'private-token-docs-acceptance' if acceptance_only else 'private-token-docs-value'
+                v.append({'what': what, 'cfg': cfg, 'input': hx(d), 'src': src, 'expected': 'as an ordinary JSON object (model / RFC 8259): ' + m, 'actual': a, 'shrinkable': False})
+    ctx.count('private-token documents', len(docs))
+    return v
 
 def judge_depth(ctx, cfg, aux=None):
     rng = ctx.rng
@@ -200,6 +250,7 @@ def run_c02(ctx):
                 ctx.sample({'op': 'pv', 'cfg': cfg, 'input_hex': hx(d)})
         docs = list(value_docs(ctx, 3000))
         ctx.violations += judge_sources(ctx, cfg, docs, ops=('pv',), srcs=['s', 'b', 'r1', 'rx5'], what_prefix='c02-')
+    ctx.violations += judge_private_tokens(ctx, acceptance_only=False)
 
 def judge_c11(ctx, cfg, inputs, aux=None):
     L = ctx.letters(cfg)
@@ -469,6 +520,7 @@ def run_c12(ctx):
             ctx.violations += judge_c12(ctx, cfg, batch)
             for d in batch[:3]:
                 ctx.sample({'op': 'st', 'cfg': cfg, 'input_hex': hx(d), 'calls': 7})
+    typed_part(ctx, 'run_c12_typed')
 
 # ================================================================== C13: read faults
 def judge_c13(ctx, cfg, inputs, aux=None):
@@ -794,8 +846,8 @@ def run_c19(ctx):
 PARSER_TB = ['modelled, not verified: std::io::Bytes (one-byte reads, Interrupted retried), memchr, str::from_utf8, BTreeMap/IndexMap insert, rustc float literal parsing (POW10), IEEE arithmetic of f64 (Flocq model)',
              'the three readers are abstracted to one cursor (rest, off, peeked) — tied by running str/slice/reader sources with chunk schedules']
 
-register('C01', cfgs={'quick': ['def'], 'thorough': ['def', 'ap', 'fr', 'ud']}, run=run_c01, judge=judge_c01, extended=run_c01, trusted_base=PARSER_TB)
-register('C02', cfgs={'quick': ['def', 'po'], 'thorough': ['def', 'po', 'fr', 'ap']}, run=run_c02, judge=judge_c02, extended=run_c02, trusted_base=PARSER_TB)
+register('C01', cfgs={'quick': ['def'], 'thorough': ['def', 'ap', 'fr', 'ud']}, side_cfgs=['ap', 'raw'], run=run_c01, judge=judge_c01, extended=run_c01, trusted_base=PARSER_TB)
+register('C02', cfgs={'quick': ['def', 'po'], 'thorough': ['def', 'po', 'fr', 'ap']}, side_cfgs=['ap', 'raw'], run=run_c02, judge=judge_c02, extended=run_c02, trusted_base=PARSER_TB)
 register('C09', cfgs={'quick': ['def'], 'thorough': ['def', 'raw', 'ap', 'fr', 'po', 'ud']}, run=run_c09, judge=judge_c09, extended=run_c09, trusted_base=PARSER_TB)
 register('C10', cfgs={'quick': ['def', 'raw'], 'thorough': ['def', 'raw', 'ap']}, run=run_c10, judge=None, extended=run_c10, trusted_base=PARSER_TB)
 register('C11', cfgs={'quick': ['def'], 'thorough': ['def']}, run=run_c11, judge=judge_c11, extended=run_c11, trusted_base=PARSER_TB)
